@@ -30,6 +30,22 @@ from ..model import AnalysisError
 ASSUMPTIONS = ['beta2 in (0, 1], weights beta2 and w are non-negative', 'jnp.max without where=/initial= is the true maximum']
 
 
+def _rank_witness(nd):
+  """oracle: comparisons of `<x>.ndim` / len(<x>.shape) with an integer constant are folded for tensor rank `nd`"""
+  import operator as _op
+  OPS = {'<': _op.lt, '<=': _op.le, '>': _op.gt, '>=': _op.ge, '==': _op.eq, '!=': _op.ne}
+
+  def oracle(c):
+    if c.op == 'cmp' and c.args[0] in OPS and is_const(c.args[2]) and isinstance(cval(c.args[2]), int) and not isinstance(cval(c.args[2]), bool):
+      l = strip_casts(c.args[1])
+      is_rank = (l.op == 'attr' and l.args[1] == 'ndim') or \
+          (l.op == 'call' and l.args[0].op == 'builtin' and l.args[0].args[0] == 'len' and l.args[1] and l.args[1][0].op == 'attr' and l.args[1][0].args[1] == 'shape')
+      if is_rank:
+        return bool(OPS[c.args[0]](nd, cval(c.args[2])))
+    return None
+  return oracle
+
+
 def run(ctx):
   m = ctx.model
   fu = m.func('sm3', 'sm3.update_fn')
@@ -42,7 +58,7 @@ def run(ctx):
       continue
     d = Decider(truth={'normalize_grads': norm}, cmps={('weight_decay', '>', 0.0): wd, ('beta2', '!=', 1.0): not b2one, ('beta1', '!=', 1.0): not b1one},
                 calls={('callable', 'learning_rate'): False},
-                extra=lambda c, rank1=rank1: (rank1 if (c.op == 'cmp' and c.args[0] in ('<', '==') and is_const(c.args[2]) and 'ndim' in show(c.args[1], maxdepth=4)) else None))
+                extra=_rank_witness(1 if rank1 else 2))
     ev = evaluator(m, decide=d, opaque={'_quantize_momentum'})
     r = ev.run(fu)
     ctx.evaluations += 1
